@@ -12,8 +12,18 @@ structure V where
   out : List OutMsg
   inflight : Int
   ninfos : Nat
+  /-- the protocol is MQTT 5 (no handler ever changes this) -/
+  p5 : Prop
+  /-- `_last_mid` is a 16 bit value (no handler ever changes this) -/
+  mok : Prop
 
-def view (s : S) : V := ⟨s.cfg, s.out, s.inflight, s.infos.length⟩
+theorem midNext_le (l : Nat) : (midNext l ≤ 65535) = (l ≤ 65535) := by
+  unfold midNext
+  simp only [Gen.midIncr, Gen.midWrapCmp, Gen.midWrap, Gen.midReset, Cmp.evalNat]
+  apply propext
+  by_cases h : l + 1 = 65536 <;> simp [h] <;> omega
+
+def view (s : S) : V := ⟨s.cfg, s.out, s.inflight, s.infos.length, s.proto = 5, s.lastMid ≤ 65535⟩
 
 /-- the log of `s` is a prefix of the log of `s'` -/
 def Pre (s s' : S) : Prop := s'.log = s.log ++ evsOf s s'
@@ -53,8 +63,8 @@ theorem qpubs_congr_left {s X : S} (h : X.log = s.log) (s' : S) : qpubs X s' = q
 def FrQ (s s' : S) : Prop := Pre s s' ∧ view s' = view s ∧ qpubs s s' = []
 
 theorem Fr.frq {s s' : S} (h : Fr s s') : FrQ s s' := by
-  obtain ⟨h1, _, h3, h4, _, h6, h7, _, h9⟩ := h
-  exact ⟨h7, by simp [view, h1, h3, h4, h6], h9⟩
+  obtain ⟨h0, h1, h2, h3, h4, _, h6, h7, _, h9⟩ := h
+  exact ⟨h7, by simp [view, h0, h1, h2, h3, h4, h6], h9⟩
 
 theorem FrQ.refl (s : S) : FrQ s s := ⟨Pre.refl s, rfl, qpubs_self s⟩
 
@@ -108,11 +118,47 @@ theorem sendPublish_q (s : S) (mid t p q r d i dir u) :
   · right; exact ⟨c, u', h1, h2, by rw [h]; rfl⟩
 
 theorem sendPublish_pre (s : S) (mid t p q r d i dir u) : Pre s (s.sendPublish mid t p q r d i dir u).1 :=
-  (sendPublish_same s mid t p q r d i dir u).2.2.2.2.2.2
+  (sendPublish_same s mid t p q r d i dir u).2.2.2.2.2.2.2
 
 theorem sendPublish_view (s : S) (mid t p q r d i dir u) : view (s.sendPublish mid t p q r d i dir u).1 = view s := by
   simp [view]
 
+/-- the PUBLISH packet of a stored message can be encoded (for every protocol version on the same side of
+the MQTT 5 divide as recorded in the view, and whatever the DUP flag) -/
+def Enc (p5 : Prop) (m : OutMsg) : Prop :=
+  ∀ proto dup, (proto = 5 ↔ p5) →
+    ∃ b, encPublish proto m.mid m.topic m.payload m.qos m.retain dup none = .ok b
+
+theorem sendPublish_q_some (s : S) (c : Nat) (hs : s.sock = some c) (mid t p q r d i dir u) (b : Bytes)
+    (he : encPublish s.proto mid t p q r d none = .ok b) :
+    qpubs s (s.sendPublish mid t p q r d i dir (some u)).1 = [.qPublish c u mid q d] := by
+  unfold qpubs
+  rw [filter_q_filter_qr, sendPublish_qr_some s c hs mid t p q r d i dir u b he]
+  rfl
+
+theorem sendPublish_q_err (s : S) (mid t p q r d i dir u) (e : Exc)
+    (he : encPublish s.proto mid t p q r d none = .error e) :
+    qpubs s (s.sendPublish mid t p q r d i dir u).1 = [] := by
+  unfold sendPublish
+  cases hs : s.sock <;> simp [he, qpubs, evsOf, isQPublish]
+
+/-- a stored message sent on an open socket is handed to the connection, unless it cannot be encoded -/
+theorem sendPublish_handed (s X : S) (hlog : X.log = s.log) (hproto : X.proto = s.proto) (hsock : X.sock = s.sock)
+    (hs : s.sock.isNone = false) (m : OutMsg) (dir : Bool) :
+    (qpubs s (X.sendPublish m.mid m.topic m.payload m.qos m.retain m.dup none dir (some m.info)).1 = [] ∧
+        ¬ Enc (view s).p5 m) ∨
+    ∃ c, qpubs s (X.sendPublish m.mid m.topic m.payload m.qos m.retain m.dup none dir (some m.info)).1 =
+      [.qPublish c m.info m.mid m.qos m.dup] := by
+  rw [← qpubs_congr_left hlog]
+  cases hc : s.sock with
+  | none => simp [hc] at hs
+  | some c =>
+    cases he : encPublish X.proto m.mid m.topic m.payload m.qos m.retain m.dup none with
+    | ok b => exact Or.inr ⟨c, sendPublish_q_some X c (hsock.trans hc) _ _ _ _ _ _ _ _ _ b he⟩
+    | error e =>
+      refine Or.inl ⟨sendPublish_q_err X _ _ _ _ _ _ _ _ _ e he, fun henc => ?_⟩
+      obtain ⟨b, hb⟩ := henc X.proto m.dup (by simp [view, hproto])
+      rw [he] at hb; cases hb
 
 /-! ### `_update_inflight` -/
 
@@ -122,19 +168,16 @@ def relState (m : OutMsg) : MS :=
 /-- one queued message is released into the window -/
 def Release (v v' : V) (L : List Ev) : Prop :=
   ∃ idx m, v.out[idx]? = some m ∧ m.state = .queued ∧ m.qos > 0 ∧ v.inflight < v.cfg.maxInflight ∧
-    (L = [] ∨ ∃ c, L = [.qPublish c m.info m.mid m.qos m.dup]) ∧
+    ((L = [] ∧ ¬ Enc v.p5 m) ∨ ∃ c, L = [.qPublish c m.info m.mid m.qos m.dup]) ∧
     v' = { v with out := v.out.set idx { m with state := relState m }, inflight := v.inflight + 1 }
 
 theorem release_tr (s : S) (idx : Nat) (m : OutMsg) (h : s.out[idx]? = some m) (hq : m.qos > 0)
-    (hst : m.state = .queued) (hlt : s.inflight < s.cfg.maxInflight) (dir : Bool) :
+    (hst : m.state = .queued) (hlt : s.inflight < s.cfg.maxInflight) (hs : s.sock.isNone = false) (dir : Bool) :
     Tr Release s ({ s with inflight := s.inflight + 1, out := s.out.set idx { m with state := if m.qos = 1 then .waitPuback else if m.qos = 2 then .waitPubrec else m.state } }.sendPublish
       m.mid m.topic m.payload m.qos m.retain m.dup none dir (some m.info)).1 := by
   refine ⟨Pre.congr_left (s := s) rfl (sendPublish_pre ..), idx, m, h, hst, hq, hlt, ?_, ?_⟩
-  · rw [← qpubs_congr_left (s := s) (X := { s with inflight := s.inflight + 1, out := s.out.set idx { m with state := if m.qos = 1 then .waitPuback else if m.qos = 2 then .waitPubrec else m.state } }) rfl]
-    rcases sendPublish_q { s with inflight := s.inflight + 1, out := s.out.set idx { m with state := if m.qos = 1 then .waitPuback else if m.qos = 2 then .waitPubrec else m.state } }
-      m.mid m.topic m.payload m.qos m.retain m.dup none dir (some m.info) with h | ⟨c, u', h1, _, h⟩
-    · exact Or.inl h
-    · right; cases h1; exact ⟨c, h⟩
+  · exact sendPublish_handed s { s with inflight := s.inflight + 1, out := s.out.set idx { m with state := if m.qos = 1 then .waitPuback else if m.qos = 2 then .waitPubrec else m.state } }
+      rfl rfl rfl hs m dir
   · rw [sendPublish_view]; rfl
 
 theorem updateInflight_tr (s : S) (fuel idx : Nat) : Tr (Star Release) s (s.updateInflight fuel idx).1 := by
@@ -145,11 +188,15 @@ theorem updateInflight_tr (s : S) (fuel idx : Nat) : Tr (Star Release) s (s.upda
     split
     · exact Tr.star_refl (FrQ.refl s)
     · rename_i m hm
+      by_cases hs : s.sock.isNone = true
+      · rw [if_pos hs]; exact Tr.star_refl (FrQ.refl s)
+      rw [if_neg hs]
+      have hs' : s.sock.isNone = false := Bool.eq_false_iff.2 hs
       by_cases hlt : s.inflight < s.cfg.maxInflight
       · rw [if_pos hlt]
         by_cases hc : m.qos > 0 ∧ m.state = .queued
         · rw [if_pos hc]
-          have hrel := release_tr s idx m hm hc.1 hc.2 hlt true
+          have hrel := release_tr s idx m hm hc.1 hc.2 hlt hs' true
           simp only []
           generalize S.sendPublish _ _ _ _ _ _ _ _ _ _ = sp at hrel ⊢
           split
@@ -178,14 +225,41 @@ theorem updateInflight_cfg (s : S) (fuel idx : Nat) : (s.updateInflight fuel idx
     repeat' split
     all_goals simp [ih]
 
+theorem updateInflight_mono (s : S) (fuel idx : Nat) : s.inflight ≤ (s.updateInflight fuel idx).1.inflight := by
+  induction fuel generalizing s idx with
+  | zero => unfold updateInflight; exact Int.le_refl _
+  | succ n ih =>
+    unfold updateInflight
+    split
+    · exact Int.le_refl _
+    · rename_i m hm
+      by_cases hs : s.sock.isNone = true
+      · rw [if_pos hs]; exact Int.le_refl _
+      rw [if_neg hs]
+      by_cases hlt : s.inflight < s.cfg.maxInflight
+      · rw [if_pos hlt]
+        by_cases hc : m.qos > 0 ∧ m.state = .queued
+        · rw [if_pos hc]
+          simp only []
+          generalize hsp : S.sendPublish _ _ _ _ _ _ _ _ _ _ = sp
+          have hinf : sp.1.inflight = s.inflight + 1 := by rw [← hsp]; simp
+          split
+          · show s.inflight ≤ sp.1.inflight
+            omega
+          · have := ih sp.1 (idx + 1)
+            omega
+        · rw [if_neg hc]; exact ih _ _
+      · rw [if_neg hlt]; exact Int.le_refl _
+
 theorem updateInflight_complete (s : S) (fuel idx : Nat)
+    (hs : s.sock.isNone = false)
     (hq : ∀ x ∈ s.out, x.qos = 1 ∨ x.qos = 2)
     (hpre : ∀ j x, j < idx → s.out[j]? = some x → x.state ≠ .queued)
     (hfuel : s.out.length < fuel + idx) :
     (∀ x ∈ (s.updateInflight fuel idx).1.out, x.state ≠ .queued) ∨
     (s.updateInflight fuel idx).1.inflight ≥ s.cfg.maxInflight ∨
     (s.updateInflight fuel idx).1.inflight ≥ s.inflight + 1 := by
-  induction fuel generalizing s idx with
+  induction fuel generalizing idx with
   | zero => unfold updateInflight; exact Or.inl (noQueued_of_pre s.out idx (by omega) hpre)
   | succ n ih =>
     unfold updateInflight
@@ -194,41 +268,24 @@ theorem updateInflight_complete (s : S) (fuel idx : Nat)
       exact Or.inl (noQueued_of_pre s.out idx (by simpa using hnone) hpre)
     · rename_i m hm
       have hmmem : m ∈ s.out := List.mem_of_getElem? hm
+      rw [if_neg (by rw [hs]; exact Bool.false_ne_true)]
       by_cases hlt : s.inflight < s.cfg.maxInflight
       · rw [if_pos hlt]
         by_cases hc : m.qos > 0 ∧ m.state = .queued
         · rw [if_pos hc]
           simp only []
           generalize hsp : S.sendPublish _ _ _ _ _ _ _ _ _ _ = sp
-          have hout : sp.1.out = s.out.set idx { m with state := if m.qos = 1 then .waitPuback else if m.qos = 2 then .waitPubrec else m.state } := by
-            rw [← hsp]; simp
           have hinf : sp.1.inflight = s.inflight + 1 := by rw [← hsp]; simp
-          have hcfg : sp.1.cfg = s.cfg := by rw [← hsp]; simp
+          right; right
           split
-          · right; right; simp [hinf]
-          · have := ih sp.1 (idx + 1) ?_ ?_ ?_
-            · rcases this with h | h | h
-              · exact Or.inl h
-              · right; left; rw [← hcfg]; exact h
-              · right; right; omega
-            · intro x hx
-              rw [hout] at hx
-              rcases List.mem_or_eq_of_mem_set hx with h | h
-              · exact hq x h
-              · subst h; exact hq m hmmem
-            · intro j x hj hx
-              rw [hout, List.getElem?_set] at hx
-              split at hx
-              · split at hx
-                · cases hx
-                  rcases hq m hmmem with h | h <;> simp [h]
-                · cases hx
-              · exact hpre j x (by omega) hx
-            · rw [hout, List.length_set]; omega
+          · show sp.1.inflight ≥ s.inflight + 1
+            omega
+          · have := updateInflight_mono sp.1 n (idx + 1)
+            omega
         · rw [if_neg hc]
           have hmq : m.state ≠ .queued := by
             intro h; apply hc; refine ⟨?_, h⟩; rcases hq m hmmem with h | h <;> omega
-          refine ih s (idx + 1) hq ?_ (by omega)
+          refine ih (idx + 1) ?_ (by omega)
           intro j x hj hx
           rcases Nat.lt_or_ge j idx with h | h
           · exact hpre j x h hx
@@ -243,20 +300,18 @@ theorem updateInflight_complete (s : S) (fuel idx : Nat)
 def Resend (v v' : V) (L : List Ev) : Prop :=
   ∃ idx m st, v.out[idx]? = some m ∧
     ((m.state = .publish ∧ ((m.qos = 1 ∧ st = .waitPuback) ∨ (m.qos = 2 ∧ st = .waitPubrec)) ∧
-        (L = [] ∨ ∃ c, L = [.qPublish c m.info m.mid m.qos m.dup])) ∨
+        ((L = [] ∧ ¬ Enc v.p5 m) ∨ ∃ c, L = [.qPublish c m.info m.mid m.qos m.dup])) ∨
      (m.qos = 2 ∧ m.state = .resendPubrel ∧ st = .waitPubcomp ∧ L = [])) ∧
     v' = { v with out := v.out.set idx { m with state := st }, inflight := v.inflight + 1 }
 
 theorem resend_pub_tr (s : S) (idx : Nat) (m : OutMsg) (st : MS) (h : s.out[idx]? = some m)
-    (hst : m.state = .publish) (hq : (m.qos = 1 ∧ st = .waitPuback) ∨ (m.qos = 2 ∧ st = .waitPubrec)) (dir : Bool) :
+    (hst : m.state = .publish) (hq : (m.qos = 1 ∧ st = .waitPuback) ∨ (m.qos = 2 ∧ st = .waitPubrec))
+    (hs : s.sock.isNone = false) (dir : Bool) :
     Tr Resend s ({ s with inflight := s.inflight + 1, out := s.out.set idx { m with state := st } }.sendPublish
       m.mid m.topic m.payload m.qos m.retain m.dup none dir (some m.info)).1 := by
   refine ⟨Pre.congr_left (s := s) rfl (sendPublish_pre ..), idx, m, st, h, Or.inl ⟨hst, hq, ?_⟩, ?_⟩
-  · rw [← qpubs_congr_left (s := s) (X := { s with inflight := s.inflight + 1, out := s.out.set idx { m with state := st } }) rfl]
-    rcases sendPublish_q { s with inflight := s.inflight + 1, out := s.out.set idx { m with state := st } }
-      m.mid m.topic m.payload m.qos m.retain m.dup none dir (some m.info) with h | ⟨c, u', h1, _, h⟩
-    · exact Or.inl h
-    · right; cases h1; exact ⟨c, h⟩
+  · exact sendPublish_handed s { s with inflight := s.inflight + 1, out := s.out.set idx { m with state := st } }
+      rfl rfl rfl hs m dir
   · rw [sendPublish_view]; rfl
 
 theorem resend_rel_tr (s : S) (idx : Nat) (m : OutMsg) (h : s.out[idx]? = some m)
@@ -276,12 +331,16 @@ theorem connackResend_tr (s : S) (fuel idx : Nat) (rc : RC) : Tr (Star Resend) s
     split
     · exact Tr.star_refl (FrQ.refl s)
     · rename_i m hm
+      by_cases hs : s.sock.isNone = true
+      · rw [if_pos hs]; exact Tr.star_refl (FrQ.refl s)
+      rw [if_neg hs]
+      have hs' : s.sock.isNone = false := Bool.eq_false_iff.2 hs
       by_cases hqd : m.state = .queued
       · rw [if_pos hqd]; exact Tr.star_refl (loopWrite_fr s).frq
       · rw [if_neg hqd]
         by_cases h1 : m.qos = 1 ∧ m.state = .publish
         · rw [if_pos h1]
-          have hrel := resend_pub_tr s idx m .waitPuback hm h1.2 (Or.inl ⟨h1.1, rfl⟩) false
+          have hrel := resend_pub_tr s idx m .waitPuback hm h1.2 (Or.inl ⟨h1.1, rfl⟩) hs' false
           simp only []
           generalize S.sendPublish _ _ _ _ _ _ _ _ _ _ = sp at hrel ⊢
           split
@@ -290,7 +349,7 @@ theorem connackResend_tr (s : S) (fuel idx : Nat) (rc : RC) : Tr (Star Resend) s
         · rw [if_neg h1]
           by_cases h2 : m.qos = 2 ∧ m.state = .publish
           · rw [if_pos h2]
-            have hrel := resend_pub_tr s idx m .waitPubrec hm h2.2 (Or.inr ⟨h2.1, rfl⟩) false
+            have hrel := resend_pub_tr s idx m .waitPubrec hm h2.2 (Or.inr ⟨h2.1, rfl⟩) hs' false
             simp only []
             generalize S.sendPublish _ _ _ _ _ _ _ _ _ _ = sp at hrel ⊢
             split
@@ -331,7 +390,7 @@ theorem Tr.comp_left {R} {s s1 s2 : S} (hp : Pre s s1) (hq : qpubs s s1 = []) (h
 theorem ack_finish (conf : Bool) (s : S) (mid : Nat) (m : OutMsg) (s4 s' : S)
     (hm : s.out.find? (fun x => decide (x.mid = mid)) = some m)
     (hconf : conf = true → ∀ x ∈ s.out, x.mid = mid → x.state.counted = true)
-    (hp : Pre s s4) (hq0 : qpubs s s4 = [])
+    (hp : Pre s s4) (hq0 : qpubs s s4 = []) (hs4 : s4.sock.isNone = false)
     (hv : view s4 = { view s with out := s.out.filter (fun x => decide (x.mid ≠ mid)),
                                   inflight := if m.qos > 0 then s.inflight - 1 else s.inflight })
     (h : (m.qos > 0 ∧ s.cfg.maxInflight > 0 ∧ s' = (s4.updateInflight (s4.out.length + 1) 0).1) ∨
@@ -343,7 +402,7 @@ theorem ack_finish (conf : Bool) (s : S) (mid : Nat) (m : OutMsg) (s4 s' : S)
     refine ⟨hp2, m, _, hm, hv, hconf, hst, ?_⟩
     intro _ _ hqos
     have hout : s4.out = s.out.filter (fun x => decide (x.mid ≠ mid)) := congrArg V.out hv
-    have hc := updateInflight_complete s4 (s4.out.length + 1) 0 ?_ ?_ ?_
+    have hc := updateInflight_complete s4 (s4.out.length + 1) 0 hs4 ?_ ?_ ?_
     · exact hc
     · intro x hx
       rw [hout] at hx
@@ -354,7 +413,7 @@ theorem ack_finish (conf : Bool) (s : S) (mid : Nat) (m : OutMsg) (s4 s' : S)
     · rw [hq0]; exact Star.refl _
     · intro hN hq; exact absurd ⟨hq, hN⟩ hn
 
-theorem doOnPublish_tr (conf : Bool) (s : S) (mid : Nat)
+theorem doOnPublish_tr (conf : Bool) (s : S) (mid : Nat) (hs : s.sock.isNone = false)
     (hconf : conf = true → ∀ x ∈ s.out, x.mid = mid → x.state.counted = true) :
     Tr (RAck conf mid) s (s.doOnPublish mid).1 ∨ FrQ s (s.doOnPublish mid).1 := by
   fun_cases doOnPublish s mid
@@ -364,36 +423,40 @@ theorem doOnPublish_tr (conf : Bool) (s : S) (mid : Nat)
     apply Fr.of0; simp only [Fr0, evsOf]; simp [isQR, s0]
   case case2 s0 m hm s1 s2 s3 hq s4 hN s' rc hx hrc =>
     left
-    refine ack_finish conf s mid m s4 s' hm hconf ?_ ?_ ?_ (Or.inl ⟨hq, hN, by rw [hx]⟩)
+    refine ack_finish conf s mid m s4 s' hm hconf ?_ ?_ ?_ ?_ (Or.inl ⟨hq, hN, by rw [hx]⟩)
     · simp [Pre, evsOf, s4, s3, s2, s1, s0, setInfo]
     · simp [qpubs, evsOf, s4, s3, s2, s1, s0, setInfo, isQPublish]
+    · simpa [s4, s3, s2, s1, s0, setInfo] using hs
     · simp [view, s4, s3, s2, s1, s0, setInfo, hq]
   case case3 s0 m hm s1 s2 s3 hq s4 hN s' rc hx hrc =>
     left
-    refine ack_finish conf s mid m s4 s' hm hconf ?_ ?_ ?_ (Or.inl ⟨hq, hN, by rw [hx]⟩)
+    refine ack_finish conf s mid m s4 s' hm hconf ?_ ?_ ?_ ?_ (Or.inl ⟨hq, hN, by rw [hx]⟩)
     · simp [Pre, evsOf, s4, s3, s2, s1, s0, setInfo]
     · simp [qpubs, evsOf, s4, s3, s2, s1, s0, setInfo, isQPublish]
+    · simpa [s4, s3, s2, s1, s0, setInfo] using hs
     · simp [view, s4, s3, s2, s1, s0, setInfo, hq]
   case case4 s0 m hm s1 s2 s3 hq s4 hN =>
     left
-    refine ack_finish conf s mid m s4 s4 hm hconf ?_ ?_ ?_ (Or.inr ⟨fun h => hN h.2, rfl⟩)
+    refine ack_finish conf s mid m s4 s4 hm hconf ?_ ?_ ?_ ?_ (Or.inr ⟨fun h => hN h.2, rfl⟩)
     · simp [Pre, evsOf, s4, s3, s2, s1, s0, setInfo]
     · simp [qpubs, evsOf, s4, s3, s2, s1, s0, setInfo, isQPublish]
+    · simpa [s4, s3, s2, s1, s0, setInfo] using hs
     · simp [view, s4, s3, s2, s1, s0, setInfo, hq]
   case case5 s0 m hm s1 s2 s3 hq =>
     left
-    refine ack_finish conf s mid m s3 s3 hm hconf ?_ ?_ ?_ (Or.inr ⟨fun h => hq h.1, rfl⟩)
+    refine ack_finish conf s mid m s3 s3 hm hconf ?_ ?_ ?_ ?_ (Or.inr ⟨fun h => hq h.1, rfl⟩)
     · simp [Pre, evsOf, s3, s2, s1, s0, setInfo]
     · simp [qpubs, evsOf, s3, s2, s1, s0, setInfo, isQPublish]
+    · simpa [s3, s2, s1, s0, setInfo] using hs
     · simp [view, s3, s2, s1, s0, setInfo, hq]
 
 
-theorem handlePubackcomp_tr (conf : Bool) (s : S) (mid : Nat)
+theorem handlePubackcomp_tr (conf : Bool) (s : S) (mid : Nat) (hs : s.sock.isNone = false)
     (hconf : conf = true → ∀ x ∈ s.out, x.mid = mid → x.state.counted = true) :
     Tr (RAck conf mid) s (s.handlePubackcomp mid).1 ∨ FrQ s (s.handlePubackcomp mid).1 := by
   unfold handlePubackcomp
   split
-  · exact doOnPublish_tr conf s mid hconf
+  · exact doOnPublish_tr conf s mid hs hconf
   · exact Or.inr (FrQ.refl s)
 
 /-! ### PUBREC -/
@@ -423,15 +486,15 @@ theorem Fr.refl (s : S) : Fr s s := by
   apply Fr.of0; simp [Fr0, evsOf]
 
 theorem Fr.trans {s s1 s2 : S} (h1 : Fr s s1) (h2 : Fr s1 s2) : Fr s s2 := by
-  obtain ⟨a1, a2, a3, a4, a5, a6, a7, a8, a9⟩ := h1
-  obtain ⟨b1, b2, b3, b4, b5, b6, b7, b8, b9⟩ := h2
+  obtain ⟨a0, a1, a2, a3, a4, a5, a6, a7, a8, a9⟩ := h1
+  obtain ⟨b0, b1, b2, b3, b4, b5, b6, b7, b8, b9⟩ := h2
   have hp : Pre s s2 := Pre.trans (s1 := s1) a7 b7
-  refine ⟨b1.trans a1, b2.trans a2, b3.trans a3, b4.trans a4, b5.trans a5, b6.trans a6, hp, ?_, ?_⟩
+  refine ⟨b0.trans a0, b1.trans a1, b2.trans a2, b3.trans a3, b4.trans a4, b5.trans a5, b6.trans a6, hp, ?_, ?_⟩
   · rw [evsOf_trans (s1 := s1) a7 b7, List.filter_append, a8, b8]; rfl
   · rw [evsOf_trans (s1 := s1) a7 b7, List.filter_append, a9, b9]; rfl
 
 theorem Fr.ccs {s s' : S} (h : Fr s s') : s'.checkCleanSession = s.checkCleanSession := by
-  obtain ⟨a1, a2, a3, a4, a5, a6, a7, a8, a9⟩ := h
+  obtain ⟨a0, a1, a2, a3, a4, a5, a6, a7, a8, a9⟩ := h
   simp [checkCleanSession, a1, a2, a5]
 
 def RReset (cl : Bool) (v v' : V) (L : List Ev) : Prop :=
@@ -496,6 +559,57 @@ def RAdd (v v' : V) (L : List Ev) : Prop :=
         (m.state = .publish ∧ v'.inflight = v.inflight) ∨
         (m.state = .queued ∧ v.cfg.maxInflight > 0 ∧ v.inflight ≥ v.cfg.maxInflight ∧ v'.inflight = v.inflight ∧ L = []) ) )
 
+theorem enc_of_check (proto mid : Nat) (topic payload : Bytes) (qos : Nat) (retain : Bool)
+    (hv : publishCheckFull proto topic qos .bytes payload.length (if proto = 5 then 1 else 0) = none)
+    (hmid : mid ≤ 65535) (proto' : Nat) (dup : Bool) (hp' : proto' = 5 ↔ proto = 5) :
+    ∃ b, encPublish proto' mid topic payload qos retain dup none = .ok b := by
+  generalize hk : (if proto = 5 then 1 else 0) = k at hv
+  unfold publishCheckFull at hv
+  split at hv
+  · cases hv
+  · rename_i h2
+    split at hv
+    · cases hv
+    · rename_i h3
+      unfold publishCheck at h2
+      split at h2
+      · cases h2
+      · split at h2
+        · cases h2
+        · rename_i h4
+          have htl : topic.length ≤ 65535 := by
+            simp only [topicInvalid, Gen.topicLenCmp, Gen.topicLenMax, Cmp.evalNat, Bool.or_eq_true, not_or] at h4
+            simpa using h4.2
+          simp only [Gen.pubRemLenCmp, Gen.pubRemLenMax, Cmp.evalNat, publishRemLen] at h3
+          simp only [encPublish, packProps, remLenEncChecked, str16, packU16, Gen.rlGuardCmp, Gen.rlGuardMax, Cmp.evalNat,
+            bind, Except.bind, pure, Except.pure]
+          have e2 : ((topic.length : Nat) : Int) ≤ 65535 := by omega
+          have e3 : ((mid : Nat) : Int) ≤ 65535 := by omega
+          by_cases h5 : proto = 5
+          · have h5' := hp'.2 h5
+            have hk' : k = 1 := by rw [← hk]; simp [h5]
+            subst hk'
+            simp [h5'] at h3 ⊢
+            rw [if_neg (by omega)]
+            simp only [if_pos e2, if_pos e3]
+            split <;> exact ⟨_, rfl⟩
+          · have h5' : ¬ proto' = 5 := fun h => h5 (hp'.1 h)
+            have hk' : k = 0 := by rw [← hk]; simp [h5]
+            subst hk'
+            simp [h5'] at h3 ⊢
+            rw [if_neg (by omega)]
+            simp only [if_pos e2, if_pos e3]
+            split <;> exact ⟨_, rfl⟩
+
+/-- what `publish()` guarantees in addition to `RAdd`: the stored message can be encoded, and if it is stored
+in a waiting state its PUBLISH was handed to a connection -/
+def RAddX (v v' : V) (L : List Ev) : Prop :=
+  v'.p5 = v.p5 ∧ v'.mok = v.mok ∧
+  (v.mok → ∀ m, v'.out = v.out ++ [m] →
+    Enc v.p5 m ∧ ((m.state = .waitPuback ∨ m.state = .waitPubrec) → ∃ c, L = [.qPublish c m.info m.mid m.qos false]))
+
+@[reducible] def RAdd2 (v v' : V) (L : List Ev) : Prop := RAdd v v' L ∧ RAddX v v' L
+
 theorem pub_tail (s X Y : S) (hX : X.log = s.log) (mid t p q r i u) (hY : Y.log = (X.sendPublish mid t p q r false i true u).1.log)
     (j f rc m) :
     Pre s ((Y.setInfo j f).emit (.ret rc m)) ∧
@@ -516,7 +630,7 @@ theorem pub_tail0 (s Y : S) (hY : Y.log = s.log) (j f rc m) :
   · simp [view, setInfo]
 
 theorem publish_tr (s : S) (qos : Nat) (topic payload : Bytes) (retain : Bool) :
-    Tr RAdd s (s.publish qos topic payload retain) ∨ FrQ s (s.publish qos topic payload retain) := by
+    Tr RAdd2 s (s.publish qos topic payload retain) ∨ FrQ s (s.publish qos topic payload retain) := by
   fun_cases publish s qos topic payload retain
   case case1 => right; refine Fr.frq ?_; apply Fr.of0; simp only [Fr0, evsOf]; simp [isQR]
   case case2 => right; refine Fr.frq ?_; apply Fr.of0; simp only [Fr0, evsOf]; simp [isQR]
@@ -527,22 +641,28 @@ theorem publish_tr (s : S) (qos : Nat) (topic payload : Bytes) (retain : Bool) :
       (fun x => { x with rc := rc }) rc (some mid)
     refine ⟨hp, ?_⟩
     rw [hq', hv']
-    refine ⟨by simp [view, hs', s1, s0], by simp [view, hs', s1, s0], Or.inl ⟨by simp [view, hs', s1, s0], by simp [view, hs', s1, s0], ?_⟩⟩
-    rcases sendPublish_q s1 mid topic payload 0 retain false (some idx) true (some idx) with h | ⟨c, u, hu, _, h⟩
-    · exact Or.inl h
-    · right; cases hu; exact ⟨c, mid, by rw [h]; simp [view, idx, s0]⟩
+    refine ⟨⟨by simp [view, hs', s1, s0], by simp [view, hs', s1, s0], Or.inl ⟨by simp [view, hs', s1, s0], by simp [view, hs', s1, s0], ?_⟩⟩,
+      by simp [view, hs', s1, s0], by simp [view, hs', s1, s0, mid, midNext_le], fun _ m' hout => ?_⟩
+    · rcases sendPublish_q s1 mid topic payload 0 retain false (some idx) true (some idx) with h | ⟨c, u, hu, _, h⟩
+      · exact Or.inl h
+      · right; cases hu; exact ⟨c, mid, by rw [h]; simp [view, idx, s0]⟩
+    · simp [view, hs', s1, s0] at hout
   case case4 hv mid s0 idx s1 hq href =>
     left
     obtain ⟨hp, hq', hv'⟩ := pub_tail0 s s1 rfl idx (fun x => { x with rc := rcQueueSize }) rcQueueSize (some mid)
     refine ⟨hp, ?_⟩
     rw [hq', hv']
-    exact ⟨by simp [view, s1, s0], by simp [view, s1, s0], Or.inl ⟨by simp [view, s1, s0], by simp [view, s1, s0], Or.inl rfl⟩⟩
+    refine ⟨⟨by simp [view, s1, s0], by simp [view, s1, s0], Or.inl ⟨by simp [view, s1, s0], by simp [view, s1, s0], Or.inl rfl⟩⟩,
+      by simp [view, s1, s0], by simp [view, s1, s0, mid, midNext_le], fun _ m' hout => ?_⟩
+    simp [view, s1, s0] at hout
   case case5 hv mid s0 idx s1 hq hnref href =>
     left
     obtain ⟨hp, hq', hv'⟩ := pub_tail0 s s1 rfl idx (fun x => { x with rc := rcQueueSize }) rcQueueSize (some mid)
     refine ⟨hp, ?_⟩
     rw [hq', hv']
-    exact ⟨by simp [view, s1, s0], by simp [view, s1, s0], Or.inl ⟨by simp [view, s1, s0], by simp [view, s1, s0], Or.inl rfl⟩⟩
+    refine ⟨⟨by simp [view, s1, s0], by simp [view, s1, s0], Or.inl ⟨by simp [view, s1, s0], by simp [view, s1, s0], Or.inl rfl⟩⟩,
+      by simp [view, s1, s0], by simp [view, s1, s0, mid, midNext_le], fun _ m' hout => ?_⟩
+    simp [view, s1, s0] at hout
   case case6 hv mid s0 idx s1 hq hnref hfresh m0 hwin m s2 s3 rc hx s4 =>
     left
     have hq12 : qos = 1 ∨ qos = 2 := by have := pcf_qos _ _ _ _ _ _ hv; omega
@@ -560,6 +680,11 @@ theorem publish_tr (s : S) (qos : Nat) (topic payload : Bytes) (retain : Bool) :
       rcases sendPublish_q s2 mid topic payload qos retain false (some idx) true (some idx) with h | ⟨c, u, hu, _, h⟩
       · exact Or.inl h
       · right; cases hu; exact ⟨c, h⟩
+    have hmid : (view s).mok → mid ≤ 65535 := fun h => by
+      show midNext s.lastMid ≤ 65535
+      rw [midNext_le]; exact h
+    have henc : (view s).mok → ∀ st, Enc (view s).p5 { m with state := st } := fun h st proto' dup hp =>
+      enc_of_check s.proto mid topic payload qos retain hv (hmid h) proto' dup hp
     by_cases hrc : rc = rcNoConn
     · have h4 : s4.cfg = s.cfg ∧ s4.infos.length = s.infos.length + 1 ∧ s4.inflight = s.inflight ∧
           s4.out = s.out ++ [{ m with state := .publish }] := by
@@ -572,14 +697,43 @@ theorem publish_tr (s : S) (qos : Nat) (topic payload : Bytes) (retain : Bool) :
         apply List.map_congr_left
         intro x hx'
         simp [hfr x hx']
-      refine ⟨by simp [view, h4], by simp [view, h4], Or.inr ⟨{ m with state := .publish }, rfl, rfl, hq12, hfr, by simp [view, h4], hL, Or.inr (Or.inl ⟨rfl, by simp [view, h4]⟩)⟩⟩
+      have h4p : s4.proto = s.proto ∧ s4.lastMid = mid := by
+        simp only [s4, if_pos hrc]
+        exact ⟨by simp [hs3, s2, s1, s0], by simp [hs3, s2, s1, s0]⟩
+      refine ⟨⟨by simp [view, h4], by simp [view, h4], Or.inr ⟨{ m with state := .publish }, rfl, rfl, hq12, hfr, by simp [view, h4], hL, Or.inr (Or.inl ⟨rfl, by simp [view, h4]⟩)⟩⟩,
+        by simp [view, h4p], by simp [view, h4p, mid, midNext_le], fun hmok m' hout => ?_⟩
+      have hm' : { m with state := MS.publish } = m' := by
+        have : s4.out = s.out ++ [m'] := hout
+        rw [h4.2.2.2] at this
+        simpa using this
+      subst hm'
+      exact ⟨henc hmok _, fun h => by simp at h⟩
     · have h4 : s4.cfg = s.cfg ∧ s4.infos.length = s.infos.length + 1 ∧ s4.inflight = s.inflight + 1 ∧
           s4.out = s.out ++ [m] := by
         simp only [s4, if_neg hrc]
         exact ⟨by simp [hs3, s2, s1, s0], by simp [hs3, s2, s1, s0], by simp [hs3, s2, s1, s0], by simp [hs3, s2, s1, s0]⟩
       have hwin' : s.cfg.maxInflight = 0 ∨ s.inflight < s.cfg.maxInflight := hwin
-      refine ⟨by simp [view, h4], by simp [view, h4], Or.inr ⟨m, rfl, rfl, hq12, hfr, by simp [view, h4], hL, Or.inl ⟨?_, hwin', by simp [view, h4]⟩⟩⟩
-      simp only [m, m0]
+      have h4p : s4.proto = s.proto ∧ s4.lastMid = mid := by
+        simp only [s4, if_neg hrc]
+        exact ⟨by simp [hs3, s2, s1, s0], by simp [hs3, s2, s1, s0]⟩
+      refine ⟨⟨by simp [view, h4], by simp [view, h4], Or.inr ⟨m, rfl, rfl, hq12, hfr, by simp [view, h4], hL, Or.inl ⟨?_, hwin', by simp [view, h4]⟩⟩⟩,
+        by simp [view, h4p], by simp [view, h4p, mid, midNext_le], fun hmok m' hout => ?_⟩
+      · simp only [m, m0]
+      · have hm' : m = m' := by
+          have : s4.out = s.out ++ [m'] := hout
+          rw [h4.2.2.2] at this
+          simpa using this
+        subst hm'
+        refine ⟨henc hmok m.state, fun _ => ?_⟩
+        cases hsock : s2.sock with
+        | none =>
+          exfalso; apply hrc
+          have := sendPublish_noconn s2 hsock mid topic payload qos retain false (some idx) true (some idx)
+          rw [this] at hx
+          exact (congrArg Prod.snd hx).symm
+        | some c =>
+          obtain ⟨b, hb⟩ := enc_of_check s.proto mid topic payload qos retain hv (hmid hmok) s2.proto false (by simp [s2, s1, s0])
+          exact ⟨c, sendPublish_q_some s2 c hsock mid topic payload qos retain false (some idx) true idx b hb⟩
   case case7 hv mid s0 idx s1 hq hnref hfresh m0 hwin s2 =>
     left
     have hq12 : qos = 1 ∨ qos = 2 := by have := pcf_qos _ _ _ _ _ _ hv; omega
@@ -590,10 +744,20 @@ theorem publish_tr (s : S) (qos : Nat) (topic payload : Bytes) (retain : Bool) :
     refine ⟨hp, ?_⟩
     rw [hq', hv']
     have hwin' : ¬ (s.cfg.maxInflight = 0 ∨ s.inflight < s.cfg.maxInflight) := hwin
-    refine ⟨by simp [view, s2, s1, s0], by simp [view, s2, s1, s0], Or.inr ⟨{ m0 with state := .queued }, rfl, rfl, hq12, hfr,
-      by simp [view, s2, s1, s0], Or.inl rfl, Or.inr (Or.inr ⟨rfl, ?_, ?_, by simp [view, s2, s1, s0], rfl⟩)⟩⟩
+    refine ⟨⟨by simp [view, s2, s1, s0], by simp [view, s2, s1, s0], Or.inr ⟨{ m0 with state := .queued }, rfl, rfl, hq12, hfr,
+      by simp [view, s2, s1, s0], Or.inl rfl, Or.inr (Or.inr ⟨rfl, ?_, ?_, by simp [view, s2, s1, s0], rfl⟩)⟩⟩,
+      by simp [view, s2, s1, s0], by simp [view, s2, s1, s0, mid, midNext_le], fun hmok m' hout => ?_⟩
     · simp only [view]; omega
     · simp only [view]; omega
+    · have hm' : { m0 with state := MS.queued } = m' := by
+        have : s2.out = s.out ++ [m'] := hout
+        simpa [s2, s1, s0] using this
+      subst hm'
+      refine ⟨fun proto' dup hp => ?_, fun h => by simp at h⟩
+      have hmid : mid ≤ 65535 := by
+        show midNext s.lastMid ≤ 65535
+        rw [midNext_le]; exact hmok
+      exact enc_of_check s.proto mid topic payload qos retain hv hmid proto' dup hp
 
 
 /-! ### whole steps -/
@@ -604,7 +768,7 @@ inductive StepR (conf cl rs : Bool) : V → V → List Ev → Prop
   | pubrec {v v' L} (mid : Nat) : RPubrec conf mid v v' L → StepR conf cl rs v v' L
   | reset {v v' L} : RReset cl v v' L → StepR conf cl rs v v' L
   | resend {v v' L} : rs = true → Star Resend v v' L → StepR conf cl rs v v' L
-  | add {v v' L} : RAdd v v' L → StepR conf cl rs v v' L
+  | add {v v' L} : RAdd v v' L → RAddX v v' L → StepR conf cl rs v v' L
 
 theorem connect_tr (s : S) (ok : Bool) :
     Tr (RReset (if s.proto = 5 then { s with firstConnect := true } else s).checkCleanSession) s (s.connect ok).1 ∨
@@ -632,27 +796,40 @@ theorem handleConnack_tr (s : S) (sp : Bool) (result : Nat) (ok : Bool) :
   fun_cases handleConnack s sp result ok
   case case1 => exact ⟨fun _ => Tr.star_refl (FrQ.refl s), fun _ => Or.inr (FrQ.refl s)⟩
   case case2 => exact ⟨fun _ => Tr.star_refl (FrQ.refl s), fun _ => Or.inr (FrQ.refl s)⟩
-  case case3 pre hpre h41 hrof s1 =>
+  case case3 pre hpre h41 hrof s1 s2 hx =>
     refine ⟨fun h => by omega, fun _ => ?_⟩
-    have f : FrQ s s1 := ⟨by simp [Pre, evsOf, s1], rfl, by simp [qpubs, evsOf, s1]⟩
+    have f : FrQ s s1 := ⟨by simp [Pre, evsOf, s1], by simp [view, s1, h41.1], by simp [qpubs, evsOf, s1]⟩
+    have hc : s1.checkCleanSession = s.checkCleanSession := by
+      simp [checkCleanSession, s1, h41.1]
+    rw [← hc]
+    have hs2 : s2 = (s1.reconnect ok).1 := by rw [hx]
+    have g : FrQ s2 (s2.emit .onConnectFail) :=
+      ⟨by simp [Pre, evsOf], rfl, by simp [qpubs, evsOf, isQPublish]⟩
+    rw [hs2] at g ⊢
+    rcases reconnect_tr s1 ok with h | h
+    · exact Or.inl (Tr.frame_right (Tr.frame_left f h) g)
+    · exact Or.inr ((f.trans h).trans g)
+  case case4 pre hpre h41 hrof s1 hne =>
+    refine ⟨fun h => by omega, fun _ => ?_⟩
+    have f : FrQ s s1 := ⟨by simp [Pre, evsOf, s1], by simp [view, s1, h41.1], by simp [qpubs, evsOf, s1]⟩
     have hc : s1.checkCleanSession = s.checkCleanSession := by
       simp [checkCleanSession, s1, h41.1]
     rw [← hc]
     rcases reconnect_tr s1 ok with h | h
     · exact Or.inl (Tr.frame_left f h)
     · exact Or.inr (f.trans h)
-  case case4 pre hpre h41 s1 s2 shown s3 hres s' rc hx =>
+  case case5 pre hpre h41 s1 s2 shown s3 hres s' rc hx =>
     have f : FrQ s s3 := by
       refine ⟨?_, ?_, ?_⟩ <;> simp only [Pre, qpubs, evsOf, view, s3, s2, s1] <;> split <;> simp [isQPublish]
     refine ⟨fun _ => ?_, fun h => absurd hres h⟩
     have hs' : s' = (s3.connackResend (s3.out.length + 1) 0 rcSuccess).1 := by rw [hx]
     rw [hs']
     exact Tr.frame_left f (connackResend_tr _ _ _ _)
-  case case5 pre hpre h41 s1 s2 shown s3 hres hr =>
+  case case6 pre hpre h41 s1 s2 shown s3 hres hr =>
     have f : FrQ s s3 := by
       refine ⟨?_, ?_, ?_⟩ <;> simp only [Pre, qpubs, evsOf, view, s3, s2, s1] <;> split <;> simp [isQPublish]
     exact ⟨fun h => absurd h hres, fun _ => Or.inr f⟩
-  case case6 pre hpre h41 s1 s2 shown s3 hres hr =>
+  case case7 pre hpre h41 s1 s2 shown s3 hres hr =>
     have f : FrQ s s3 := by
       refine ⟨?_, ?_, ?_⟩ <;> simp only [Pre, qpubs, evsOf, view, s3, s2, s1] <;> split <;> simp [isQPublish]
     exact ⟨fun h => absurd h hres, fun _ => Or.inr f⟩
@@ -687,7 +864,7 @@ theorem Fr.step {conf cl rs} {s s' : S} (h : Fr s s') : Tr (StepR conf cl rs) s 
 theorem FrQ.step {conf cl rs} {s s' : S} (h : FrQ s s') : Tr (StepR conf cl rs) s s' :=
   Tr.mono (fun _ _ _ h => StepR.frame h) h.tr
 
-theorem packetHandle_tr (s : S) (p : RxPkt) (ok : Bool) :
+theorem packetHandle_tr (s : S) (p : RxPkt) (ok : Bool) (hs : s.sock.isNone = false) :
     Tr (StepR (s.conformingRx p) s.checkCleanSession (isConnack0 p)) s (s.packetHandle p ok).1 := by
   cases p with
   | connack sp rc =>
@@ -702,12 +879,12 @@ theorem packetHandle_tr (s : S) (p : RxPkt) (ok : Bool) :
   | publish m => simp only [packetHandle]; exact (handlePublish_fr s m).step
   | puback mid =>
     simp only [packetHandle]
-    rcases handlePubackcomp_tr (s.conformingRx (.puback mid)) s mid (conf_puback s mid) with h | h
+    rcases handlePubackcomp_tr (s.conformingRx (.puback mid)) s mid hs (conf_puback s mid) with h | h
     · exact Tr.mono (fun _ _ _ h => StepR.ack mid h) h
     · exact h.step
   | pubcomp mid =>
     simp only [packetHandle]
-    rcases handlePubackcomp_tr (s.conformingRx (.pubcomp mid)) s mid (conf_pubcomp s mid) with h | h
+    rcases handlePubackcomp_tr (s.conformingRx (.pubcomp mid)) s mid hs (conf_pubcomp s mid) with h | h
     · exact Tr.mono (fun _ _ _ h => StepR.ack mid h) h
     · exact h.step
   | pubrec mid =>
@@ -750,35 +927,35 @@ theorem loopRead_tr (s : S) (item : RxItem) (ok : Bool) :
     rw [this]; exact (loopRcHandle_fr s _).step
   case case5 c hc p s' n hx =>
     have : s' = (s.packetHandle p ok).1 := by rw [hx]
-    rw [this]; exact packetHandle_tr s p ok
+    rw [this]; exact packetHandle_tr s p ok (by simp [hc])
   case case6 c hc p s1 rc1 hx s2 hrc s' rc hx2 =>
     have h1 : s1 = (s.packetHandle p ok).1 := by rw [hx]
     have h2 : s' = (s2.loopRcHandle rc1).1 := by rw [hx2]
     have f : Fr s1 s2 := by apply Fr.of0; simp [Fr0, evsOf, s2]
     have g : Fr s1 s' := by rw [h2]; exact f.trans (loopRcHandle_fr s2 rc1)
-    exact Tr.frame_right (h1 ▸ packetHandle_tr s p ok) g.frq
+    exact Tr.frame_right (h1 ▸ packetHandle_tr s p ok (by simp [hc])) g.frq
   case case7 c hc p s1 s2 hx hrc =>
     have h1 : s1 = (s.packetHandle p ok).1 := by rw [hx]
     have f : Fr s1 s2 := by apply Fr.of0; simp [Fr0, evsOf, s2]
-    exact Tr.frame_right (h1 ▸ packetHandle_tr s p ok) f.frq
+    exact Tr.frame_right (h1 ▸ packetHandle_tr s p ok (by simp [hc])) f.frq
   case case8 c hc mp p s1 rc1 hx s2 h1 h2 h3 h4 =>
     have h1 : s1 = (s.packetHandle p ok).1 := by rw [hx]
     have f : Fr s1 s2 := by apply Fr.of0; simp [Fr0, evsOf, s2]
-    exact Tr.frame_right (h1 ▸ packetHandle_tr s p ok) f.frq
+    exact Tr.frame_right (h1 ▸ packetHandle_tr s p ok (by simp [hc])) f.frq
   case case9 c hc mp p s1 rc1 hx s2 h1 h2 h3 c' h4 =>
     have h1 : s1 = (s.packetHandle p ok).1 := by rw [hx]
     have f : Fr s1 s2 := by apply Fr.of0; simp [Fr0, evsOf, s2]
-    exact Tr.frame_right (h1 ▸ packetHandle_tr s p ok) f.frq
+    exact Tr.frame_right (h1 ▸ packetHandle_tr s p ok (by simp [hc])) f.frq
   case case10 c hc mp p s1 rc1 hx s2 h1 h2 h3 =>
     have h1 : s1 = (s.packetHandle p ok).1 := by rw [hx]
     have f : Fr s1 s2 := by apply Fr.of0; simp [Fr0, evsOf, s2]
-    exact Tr.frame_right (h1 ▸ packetHandle_tr s p ok) f.frq
+    exact Tr.frame_right (h1 ▸ packetHandle_tr s p ok (by simp [hc])) f.frq
 
 
 syntax "frq_tac" : tactic
 macro_rules
   | `(tactic| frq_tac) =>
-    `(tactic| (refine ⟨?_, ?_, ?_⟩ <;> simp only [Pre, qpubs, evsOf, view] <;> (repeat' split) <;> simp [isQPublish]))
+    `(tactic| (refine ⟨?_, ?_, ?_⟩ <;> simp only [Pre, qpubs, evsOf, view] <;> (repeat' split) <;> simp [isQPublish, midNext_le]))
 
 theorem subscribe_frq (s : S) (t q) : FrQ s (s.subscribe t q) := by
   unfold subscribe; frq_tac
@@ -832,7 +1009,7 @@ theorem step_tr (s : S) (op : Op) :
   | publish q t p r =>
     simp only [S.step]
     rcases publish_tr s q t p r with h | h
-    · exact Tr.mono (fun _ _ _ h => StepR.add h) h
+    · exact Tr.mono (fun _ _ _ h => StepR.add h.1 h.2) h
     · exact h.step
   | subscribe t q => simp only [S.step]; exact (subscribe_frq s t q).step
   | unsubscribe t => simp only [S.step]; exact (unsubscribe_frq s t).step
